@@ -504,13 +504,13 @@ def run(ctx):
 
 
 # translator tie: functions regenerated by tools/c2int.py on every run, in call order (a_utf_length calls a_utf_decode)
-INT_SOURCES = [("src/utf.c", ["a_utf_encode", "a_utf_decode", "a_utf_length"])]
+INT_SOURCES = [("src/utf.c", ["a_utf_encode", "a_utf_decode", "a_utf_length", "a_utf_length_"])]
 # fuel of the generated call sites = the model's: dec_fuel = 8 for both continuation-byte loops, num + 1 for the walk
-INT_FUEL = {"a_utf_decode": ["8%nat", "8%nat"], "a_utf_length": ["S (N.to_nat num)"]}
+INT_FUEL = {"a_utf_decode": ["8%nat", "8%nat"], "a_utf_length": ["S (N.to_nat num)"], "a_utf_length_": ["S (N.to_nat num)"]}
 
 
 def translator_tie(ctx):
-    return ctx.int_translate_and_tie(INT_SOURCES, "UtfGen", [H / "TieIntEnc.v", H / "TieIntDec.v", H / "TieIntLen.v"], fuel=INT_FUEL)
+    return ctx.int_translate_and_tie(INT_SOURCES, "UtfGen", [H / "TieIntEnc.v", H / "TieIntDec.v", H / "TieIntLen.v", H / "TieIntLen2.v"], fuel=INT_FUEL)
 
 
 def correspondence(ctx):
@@ -644,8 +644,9 @@ META = {
             "tools/c2int.py regenerates a Gallina model over N from the current src/utf.c (range ladder as nested lets, the "
             "fall-through switch as one arm per label, the `chr <<= 1` loops and the a_utf_length loop as fuel-indexed Fixpoints "
             "with the `return 0` inside as a tagged result, every read a checked nth_error, every store a checked list update, "
-            "wrap at every unsigned shift/add) and 6 theorems (harness/C18/TieInt*.v) prove a_utf_encode (buffer and NULL), "
-            "a_utf_decode (val and NULL; any num against exactly the bytes present) and a_utf_length (stop and NULL) equal to "
+            "wrap at every unsigned shift/add, bytes read through plain `char` carried as signed values in Z) and 8 theorems "
+            "(harness/C18/TieInt*.v) prove a_utf_encode (buffer and NULL), a_utf_decode (val and NULL; any num against exactly "
+            "the bytes present), a_utf_length (stop and NULL) and a_utf_length_ equal to "
             "the model of coq/C18/UtfDefs.v for ALL code points, byte lists of ANY length and buffers of any size - including "
             "the failing runs: the regenerated function fails exactly where the model's checked accessors do; (2) extracted "
             "model vs the C under ASan+UBSan with every buffer flush against a PROT_NONE page.",
@@ -655,12 +656,13 @@ META = {
             "boundaries, lead byte x continuation matrices, mutated/truncated strings; thorough: all 2^31-1 code points C-side "
             "against the spec.  The tie reads the model results through the maps of coq/C18/TieLemmas.v (cells all written <-> "
             "byte list; DRet/NRet <-> (return value, *val or *stop cell); DOver/DFuel and NOver/NFuel both read as failure). "
-            "NOT in the translator tie: a_utf_length_ (it reads the bytes through `char`, i.e. as negative values for bytes >= "
-            "0x80, which the translator does not represent; it stays tied by the correspondence only).  Translator limits: "
+            "a_utf_length_ reads the bytes through `char` (negative for bytes >= 0x80 on this platform): the translator carries "
+            "those values in Z and the tie shows by a 256-byte sweep that the signed tests decide as the model's unsigned ones; "
+            "the tie is for char = signed char (x86-64).  Translator limits: "
             "forming a pointer past a buffer is not checked, only accesses are; memory safety of the C beyond what the checked "
             "accessors of the regenerated functions show is observed (guard page, sanitizers); finite byte sweeps (<256) lifted "
             "by a proved lemma. No axioms (Print Assumptions under every tie theorem: closed).",
     "technique": "Rocq proof (div/mod-64 arithmetic by lia over the six length ranges, byte sweeps lifted by lemma) + translator tie "
-                 "(c2int: regenerated integer model = proved model, 6 theorems re-proved per run) + extracted-model vs C "
+                 "(c2int: regenerated integer model = proved model, 8 theorems re-proved per run) + extracted-model vs C "
                  "correspondence with guard pages",
 }
